@@ -32,6 +32,11 @@ def main() -> None:
     except ModuleNotFoundError:
         print(f"no check for {args.prop}")
         sys.exit(2)
+    if other_tree:
+        # a run against ANOTHER tree rewrites lean/TeaTasting/Gen; put the generation of /repo back when it ends (also
+        # on exit(1) / exit(2)), so that the project directory never keeps - or gets committed with - a foreign model
+        import atexit
+        atexit.register(common.use_snapshot)
     try:
         if args.replay:
             mod.replay(args.replay)
